@@ -28,6 +28,11 @@ Local Open Scope string_scope.
 TACTIC = "vm_compute; reflexivity"
 
 
+# Two converged Newton solutions of the same step satisfy every row within the solver tolerance (1e-6, row units) but need not be
+# bit-identical when the iteration starts from different points; flows in pipes with almost no head loss are the worst conditioned.
+ABS_TOL = {"flowrate": 5e-6, "demand": 5e-6, "leak_demand": 5e-6, "velocity": 5e-4, "head": 2e-4, "pressure": 2e-4, "headloss": 2e-4}
+
+
 def results_close(r1, r2, tol=1e-7):
     import numpy as np
     for grp in ("node", "link"):
@@ -39,7 +44,8 @@ def results_close(r1, r2, tol=1e-7):
             if list(x.index) != list(y.index) or list(x.columns) != list(y.columns):
                 return "index/columns of %s differ (%s vs %s)" % (key, list(x.index)[:6], list(y.index)[:6])
             d = np.abs(x.values.astype(float) - y.values.astype(float))
-            if d.size and float(np.nanmax(d)) > tol * max(1.0, float(np.nanmax(np.abs(x.values.astype(float))))):
+            lim = max(ABS_TOL.get(key, 0.0), tol * max(1.0, float(np.nanmax(np.abs(x.values.astype(float)))) if d.size else 1.0))
+            if d.size and float(np.nanmax(d)) > lim:
                 i, j = np.unravel_index(np.nanargmax(d), d.shape)
                 return "%s differs at t=%s, %s: %.9g vs %.9g" % (key, x.index[i], x.columns[j], x.values[i, j], y.values[i, j])
     return None
